@@ -5,7 +5,7 @@ import json, subprocess
 
 CLAIMS = {
  "C01": ("version arithmetic for every int32 pair; Bucket.set/get/incr and HStore.Get/Incr glue over abstract tree and log views: a read returns the record the tree points at with the tree's version, bytes and client flags equal to what was appended at that position; readRecordAt accepts only intact records (shared with C09)",
-         "partial chain: Bucket.checkAndSet (the step that applies the version arithmetic to the tree) is under contract but NOT part of the check (about 10% of its obligations stay undecided within practical solver time); the tree (HTree.get/set), the data store (AppendRecord/GetRecordByPos) and the hint manager enter through ASSUMED interface contracts over ghost views; scope: keys without hash collisions; StorageClient/protocol status mapping not under contract"),
+         "protocol-level contract for Bucket.checkAndSet (revision rule wherever the tree's version changes, NOT_FOUND, buffer accounting); its full functional contract (whole-view postconditions) was beyond the solvers (about 10% of its obligations stay undecided within practical solver time); the tree (HTree.get/set), the data store (AppendRecord/GetRecordByPos) and the hint manager enter through ASSUMED interface contracts over ghost views; scope: keys without hash collisions; StorageClient/protocol status mapping not under contract"),
  "C08": ("leaf level of the merkle tree: item codec round trip, key-hash truncation and reconstruction from the node path for every path length (pins KHASH_LENS), leaf Set/Get/Remove against the byte sequence for key-hash lengths 5..8, leaf-node (count, hash) delta contracts of setToLeaf/remvoeFromLeaf",
          "not under contract: inner-node aggregation (updateNodes, recursive), listing (listDir/ListDir), upper tree, dump/load; the C leaf memory (ToBytes/enlarge) and findInBytes (C branch) are assumed, the Go branch of findInBytes is verified on a verbatim ghost copy; history independence rests on the map-sum equations proved in Lean (lemmas/MapSum.lean) applied to the delta contracts"),
  "C09": ("record sizes/padding, header codec round trip, WriteRecord.append byte-exact stream layout incl. zero padding, readRecordAt returns a record iff the file bytes at the offset are an intact record (sizes admissible, extent inside the file, stored CRC equal to the CRC of header[4:24]+key+value, via a verified CRC-fold lemma), sequential Next/nextValid return the FIRST intact 256-aligned record at or after the position, its bytes, and continue right behind its padding",
@@ -15,7 +15,7 @@ CLAIMS = {
  "C11": ("ServerConn.ServeOnce, for every outcome of the parser, the interpreter, the storage client and the clock: when it returns without error and the connection stays open, the command got a reply (at least one byte written to the connection's writer) unless it asked for noreply, every byte written has been flushed, and the per-connection request object is reset (NoReply false, no item) so nothing carries over to the next command; Request.Clear and Shutdown verified",
          "scope: executions in which no callee panics (recover() is modelled as an arbitrary value; what a panic inside Read/Process skips is not modelled, so the 'never crashes / never wedged' half of C11 and design findings F5/F13 are not decided); assumed: Request.Read (parser: string splitting, number parsing are opaque), Request.Process, Response.Write (a reply is >= 1 byte, nothing for noreply), token limiter, bufio.Writer as a ghost byte stream with a flushed prefix. Not covered: syntactic validity of replies, byte-exact value transfer, request/response round trip (string formats are opaque to the verifier), ordering across pipelined commands beyond 'flushed before the next read'"),
  "C12": ("per-call contribution contracts of the buffer counters: ResourceLimiter arithmetic, CArray alloc/free/copy, TryCompress/Decompress/Copy allocation balance, readRecordAt and the scanner, Bucket.get (a returned payload is charged exactly once, nothing else), Bucket.incr and HStore.Incr (GetData returns to its old value), Bucket.set (SetData -> FlushData move)",
-         "not under contract: the protocol layer (Request.Read/Process, ServeOnce, request tokens), StorageClient, Bucket.checkAndSet (contract exists, not in the check), dataChunk.flush; AppendRecord/GetRecordByPos accounting clauses are assumed (read off the code); counters are treated sequentially (atomics as plain adds); environment failures (refused allocation) are outside the clauses"),
+         "not under contract: the protocol layer (Request.Read/Process, ServeOnce, request tokens), StorageClient, dataChunk.flush; AppendRecord/GetRecordByPos accounting clauses are assumed (read off the code); counters are treated sequentially (atomics as plain adds); environment failures (refused allocation) are outside the clauses"),
  "C13": ("hint buffer: representation invariant preserved, whole-view postcondition (every other (hash,key) pair reads back unchanged, a refused Set changes nothing), Set/Get composition lemmas; collision table compareAndSet/get whole-view postconditions (newest position wins unless GC relocates; other entries untouched); merge writer reports every member of a same-hash group",
          "not under contract: Bucket.get's collision branch (verified only in the no-collision scope), GC's use of collision information, restart (tombstone replay, design finding F11 not re-derived)"),
  "C14": ("hint file header and item codec (writer appends exactly the item encoding, reader decodes the item at its offset), lookup uses the reader in sync with its logical offset and returns only an item with exactly the wanted (hash,key), comparison orders (byKeyHash, mergeHeap, Position.CmpKey monotone), merge writer flush",
